@@ -95,21 +95,25 @@ Match(e, optLine) ==
 
 LineOptCb(l) == IF Accepted(l) /\ CbOptional(l) THEN <<l>> ELSE <<>>
 
-\* the reaction of the harness' event callback during this step (update_fw for the presented node), if any
-Rx(e) == [on |-> e.rx.on, n |-> e.rx.n, f |-> <<e.rx.f[1], e.rx.f[2]>>]
+\* the reaction of the harness' event callback during this step, if any: update_fw for the presented node (kind "fw"), or
+\* set_child_value for the node and child of the announced SET message (kind "set"; e.rx.exc is what that call did to its caller)
+Rx(e) == [on |-> e.rx.on, kind |-> e.rx.kind, n |-> e.rx.n, f |-> <<e.rx.f[1], e.rx.f[2]>>, t |-> e.rx.t, v |-> e.rx.v, a |-> e.rx.a]
+RxExcOk(e, l) ==
+  (e.rx.on /\ e.rx.kind = "set" /\ Accepted(l) /\ l.h.cmd = SET /\ IsKnown(nodes, l.h.n, l.h.c))
+     => Clause("rxexc", e.rx.exc = ReactSetExc(nodes, ota, l, Rx(e)))
 
 \* ---- one trace event = one Gateway action -----------------------------------
 StepAction(e) ==
   \/ /\ e.a = "Recv" /\ Flavour = "async"
      /\ \E ch \in ChoiceSet(e, e.l) : RecvAsyncR(e.l, ch, Rx(e))
-     /\ Match(e, LineOptCb(e.l))
+     /\ Match(e, LineOptCb(e.l)) /\ RxExcOk(e, e.l)
   \/ /\ e.a = "Recv" /\ Flavour = "sync"
      /\ RecvSync(e.l)
      /\ Match(e, <<>>)
   \/ /\ e.a = "Pump"
      /\ jobs # <<>>
      /\ IF Head(jobs).k = "L"
-        THEN (\E ch \in ChoiceSet(e, Head(jobs).l) : PumpR(ch, Rx(e))) /\ Match(e, LineOptCb(Head(jobs).l))
+        THEN (\E ch \in ChoiceSet(e, Head(jobs).l) : PumpR(ch, Rx(e))) /\ Match(e, LineOptCb(Head(jobs).l)) /\ RxExcOk(e, Head(jobs).l)
         ELSE Pump([id |-> 0, ord |-> <<>>, ack |-> 0]) /\ Match(e, <<>>)
   \/ /\ e.a = "SetChild"
      /\ CSetChild(e.n, e.c, e.t, e.v, e.ack)
